@@ -509,6 +509,8 @@ func execCase(lines []string) []string {
 		kinds[strings.Fields(l)[0]] = true
 	}
 	switch {
+	case kinds["dmx"]:
+		return execDmx(in)
 	case kinds["node"]:
 		return execIso(in)
 	case kinds["gb"]:
@@ -539,6 +541,14 @@ func Run(args []string) int {
 	f := kit.ParseFlags(args)
 	out := kit.NewOut()
 	defer out.Flush()
+	// Every run creates a fresh TaskMaster with its own Bolt store; on a disk the fsyncs dominate the run
+	// time (15-40 s per 400 cases against 2.5 s on tmpfs), so the stores go to /dev/shm when there is one.
+	if st, err := os.Stat("/dev/shm"); err == nil && st.IsDir() {
+		if d, err := os.MkdirTemp("/dev/shm", "vh-c06-"); err == nil {
+			os.Setenv("VERIF_SCRATCH", d)
+			defer os.RemoveAll(d)
+		}
+	}
 	if f.Ops != "" {
 		lines, err := kit.ReadLines(f.Ops)
 		if err != nil {
